@@ -30,15 +30,21 @@ from lib.core import Result, f2b, b2f, close
 READY = True
 MANIFEST = dict(
     text='Proof (Lean 4, over R): for each of the four variants (with/without outside good, prices, scale) the derivative function is the derivative of the utility '
-    '(C18.deriv_*), the closed-form consumption inverts it (C18.inverse_*), utilities are concave (C18.concave_*), total consumption is decreasing in the multiplier '
-    '(C18.consumption_monotone_*); KKT point => no feasible point is better, for every family of concave utilities (C18.kkt_optimal) and for each variant (C18.kkt_optimal_variant); '
-    'bisection keeps lo <= lambda* <= hi and stops only by one of the three criteria (C18.bisection_invariant, bisection_termination); the outside good is always in the '
-    'identified set (C18.outside_good_always_chosen); relabelling commutes with the forecast (C18.labels_irrelevant). Tie: four variants x options x labelings x budgets x rows x draws on the real code; '
-    'KKT relation evaluated by the Lean driver on every real forecast; pointwise comparison of U, U\', inverse, identification and forecast with the Float model; brute force comparison.',
+    '(C18.deriv_all, deriv_translated, deriv_gamma_profile, deriv_generalized, deriv_non_monotonic), the closed-form consumption inverts it (C18.inverse_*), marginal utility is '
+    'decreasing and utilities are concave (C18.marginal_utility_decreasing, utility_concave), total consumption is decreasing in the multiplier (C18.consumption_monotone); '
+    'KKT point => no feasible point is better, for every family of concave utilities (C18.kkt_optimal) and for the model\'s sum_of_utilities (C18.kkt_optimal_variant; '
+    'the Boolean relation evaluated by the driver is its hypothesis list: C18.kkt_relation_exact); bisection keeps lo <= lambda* <= hi, halves the bracket and stops only by one of '
+    'the two tolerances (C18.bisection_invariant, bisection_halves, bisection_termination); the outside good is always in the identified set and receives a positive consumption '
+    '(C18.outside_good_always_chosen, outside_good_consumed); relabelling commutes with the forecast on any number type (C18.labels_irrelevant) and the forecast does not depend on '
+    'the order of index_to_key over R (C18.order_irrelevant). Tie: four variants x options x labelings (1..n, shuffled, sparse) x budgets x rows x Gumbel draws on the real code; '
+    'KKT relation evaluated by the Lean driver on every real forecast; pointwise comparison of U, U\', inverse, identification and forecast with the Float model; brute-force comparison; '
+    'numeric utility vs symbolic utility and its engine gradient; Mdcev.validation, Mdcev.forecast, forecast_comparison_one_draw under relabelling.',
     design='DESIGN.md §5 C18',
     technique='Lean 4 theorems over an executable model + relation evaluated on real forecasts + differential correspondence + relabelling stream',
-    note='Partial: SLSQP (brute force) is external, only "forecast >= brute force - tolerance" is required; concavity on the documented domain alpha in (0,1), gamma > 0, price > 0; '
-    'IEEE rounding not modelled (tolerances stated); set iteration order of CPython is taken from the running interpreter.',
+    note='Partial: SLSQP (brute force) is external, only "forecast >= brute force - tolerance" is required; concavity on the documented domain 0 < alpha < 1, gamma > 0, price > 0; '
+    'optimality is proved against competitors that give the outside good a positive amount; "numeric utility = symbolic utility" is validated through the engine only (no Lean theorem); '
+    'IEEE rounding not modelled (tolerances stated); the iteration order of a CPython set is read from the real object. Two defects of the code are listed as known findings '
+    '(F-C18-1 label compared with a position in GammaProfile; F-C18-2 forecast_comparison_one_draw mixes sorted-label and set order).',
 )
 TRUSTED = [
     'scipy SLSQP (reference optimiser, may be inexact)',
@@ -283,6 +289,19 @@ def check_problem(ctx, res, prob, labs, brute=True, pieces=True, comparison=Fals
                 continue
             order = list(model.index_to_key)
             pos = {k: j for j, k in enumerate(labels)}
+            # label <-> position maps
+            res.tally('maps')
+            maps_ok = (sorted(order) == sorted(labels) and len(order) == prob['n'] == model.number_of_alternatives
+                       and all(order[model.key_to_index[k]] == k for k in labels)
+                       and model.outside_good_key == og_label
+                       and model.outside_good_index == (None if og_label is None else order.index(og_label)))
+            if not maps_ok:
+                res.violate('index_to_key / key_to_index / outside_good_index are not consistent with the labels',
+                            {'problem': prob, 'labels': labels, 'labeling': lname},
+                            {'index_to_key': order, 'key_to_index': {int(k): int(v) for k, v in model.key_to_index.items()},
+                             'outside_good_key': model.outside_good_key, 'outside_good_index': model.outside_good_index},
+                            'inverse maps over the labels', where='Mdcev.__init__ (label maps)')
+                continue
             for r in range(len(prob['rows'])):
                 db = row_db(prob, r)
                 for d, eps_abs in enumerate(prob['eps'][r]):
@@ -529,6 +548,39 @@ CORPUS = [
 ]
 
 
+def check_constructor(res, rng, fault=None, labels=None):
+    """the constructor refuses inconsistent dictionaries (labels of gamma / alpha differ from the
+    baseline utilities, several outside goods)"""
+    from biogeme.expressions import Beta
+    from biogeme.mdcev import GammaProfile, Translated
+
+    if labels is None:
+        labels = rng.sample(range(0, 30), rng.randint(2, 5))
+        fault = rng.choice(['none', 'gamma_missing', 'gamma_extra', 'alpha_missing', 'two_outside', 'one_outside'])
+    base = {k: Beta(f'c{k}', 0.0, None, None, 0) for k in labels}
+    gam = {k: Beta(f'g{k}', 1.0, None, None, 0) for k in labels}
+    alp = {k: Beta(f'a{k}', 0.5, None, None, 0) for k in labels}
+    if fault == 'gamma_missing':
+        del gam[labels[0]]
+    elif fault == 'gamma_extra':
+        gam[99] = Beta('g99', 1.0, None, None, 0)
+    elif fault == 'alpha_missing':
+        del alp[labels[-1]]
+    elif fault == 'two_outside':
+        gam[labels[0]] = None
+        gam[labels[1]] = None
+    elif fault == 'one_outside':
+        gam[labels[-1]] = None
+    got, err = safe(Translated, 'm', base, gam, alp)
+    outcome = 'ok' if got is not None else err.split(':')[0]
+    res.count({'constructor': fault, 'labels': labels}, nontrivial=fault not in ('none', 'one_outside'))
+    res.tally(f'constructor:{fault}')
+    want = 'ok' if fault in ('none', 'one_outside') else 'BiogemeError'
+    if outcome != want:
+        res.violate(f'Mdcev constructor: inconsistent dictionaries ({fault}) are not handled as documented',
+                    {'constructor': fault, 'labels': labels}, outcome, want, where='Mdcev.__init__')
+
+
 def main_labelings(rng, prob):
     """labelings of the main stream: the shape of F-C18-1 is excluded by construction"""
     labs = labelings(rng, prob['n'])
@@ -565,6 +617,8 @@ def check(ctx) -> Result:
         check_problem(ctx, res, prob, labs, brute=(i % 2 == 0), pieces=(i % 3 == 0), comparison=(i < n_cmp))
         if sum(1 for v in res.violations if v.get('where') not in (F_C18_1_WHERE, F_C18_2_WHERE)) > 5:
             break
+    for _ in range(ctx.n(30, 300)):
+        check_constructor(res, rng)
     ctx.batch.flush()
     return res
 
@@ -603,6 +657,11 @@ def search(ctx, res, broken):
 def replay(ctx, obj):
     sub = obj.get('case') or {}
     out = {'replayed': obj.get('what')}
+    if 'constructor' in sub:
+        r = Result()
+        check_constructor(r, None, sub['constructor'], sub['labels'])
+        out.update({'property_fails': bool(r.violations), 'violations': [{'what': v['what'], 'observed': v['observed'], 'expected': v['expected']} for v in r.violations[:3]]})
+        return out
     if 'problem' not in sub:
         out.update({'property_fails': False, 'note': 'nothing to replay (no concrete input in this file)'})
         return out
